@@ -156,6 +156,9 @@ def check_C01(ctx):
     paths += ctx.run_driver(b, 'corners_z', shards=16, extra='funs=mpz_mul:mpz_addmul', timeout=900)       # every pair of corner-alphabet operands x signs
     # the internal multiplication kernels called directly, each against the contract its own source states (SemK1.tla)
     for d in ('k1_mullow', 'k1_sqr', 'k1_mulmid', 'k1_mulmod'): paths += ctx.run_driver(b, d, shards=8, timeout=900)
+    # the building blocks of Toom and FFT multiplication called directly (SemK4.tla): evaluation helpers with their sign flags, arithmetic mod 2^(64n)+1, butterflies,
+    # split/combine, the transforms against the DFT definition, every Toom routine and mpn_mul_fft_main with exactly the dispatcher's scratch
+    for d, s_ in (('k4_toomeval', 8), ('k4_fftmod', 4), ('k4_toom', 8), ('k4_fft', 8)): paths += ctx.run_driver(b, d, shards=s_, timeout=900)
     paths += ctx.run_driver(b, 'c01_pieces', shards=8, timeout=900)        # piece-structured corner operands in each Toom regime
     paths += ctx.run_driver(b, 'c01_fft', shards=min(16, max(1, len(fftlines))), extra=f'fft={ff}', timeout=1500)
     ctx.validate(paths)
@@ -315,6 +318,9 @@ def check_C07(ctx):
     q = ctx.tier == 'quick'
     r = assume_model(ctx, 'GcdContract', {'M': 20 if q else 40}, timeout=3000)
     ctx.model_must_hold(r, what='(gcdext contract unique / Kronecker oracle = definition)')
+    for W, lows in ([(4, 0), (6, 2)] if q else [(4, 0), (6, 1), (8, 2)]):
+        r = ctx.tlc_model('Hgcd2', cfg_text=cfg(consts={'W': W, 'LOWSEL': lows, 'Variant': '"ok"', 'EMIT': 'FALSE'}), name=f'Hgcd2-W{W}', timeout=3000)
+        ctx.model_must_hold(r, what='(mpn_hgcd2 transcribed with div1/div2: return value, matrix entries, det 1, reduction non-negative for every continuation, termination bound)')
     b = ctx.build('default')
     funs = 'mpz_gcd:mpz_gcdext:mpz_lcm:mpz_invert:mpz_jacobi:mpz_kronecker:mpz_gcd_ui:mpz_lcm_ui:mpz_kronecker_si:mpz_kronecker_ui:mpz_si_kronecker:mpz_ui_kronecker:mpz_legendre'
     ctx.validate(ctx.run_driver(b, 'alias', shards=8, extra='funs=' + funs, tier='thorough', timeout=900))
@@ -350,10 +356,14 @@ def check_C09(ctx):
     q = ctx.tier == 'quick'
     r = assume_model(ctx, 'RootContract', {'M': 150 if q else 400}, timeout=3000)
     ctx.model_must_hold(r, what='(root / perfect power contracts = brute force definitions)')
+    sq = [(4, 2, 2, 4), (8, 2, 1, 2), (16, 8, 0, 0)] if q else [(4, 2, 2, 4), (8, 2, 1, 2), (16, 8, 0, 0), (16, 2, 0, 0), (16, 4, 0, 0), (2, 0, 4, 8)]
+    for W, TP, NM, WM in sq:
+        r = ctx.tlc_model('SqrtremDC', cfg_text=cfg(consts={'W': W, 'TP': TP, 'NMAX': NM, 'WMAX': WM, 'Variant': '"ok"', 'EMIT': 'FALSE'}), name=f'SqrtremDC-W{W}-TP{TP}-N{NM}', timeout=3000)
+        ctx.model_must_hold(r, what='(mpn_sqrtrem1 / sqrtrem2 / dc_sqrtrem / wrapper transcribed: root, remainder limbs, carry and size return values)')
     b = ctx.build('default')
     ctx.validate(ctx.run_driver(b, 'alias', shards=8, extra='funs=mpz_sqrt:mpz_sqrtrem:mpz_root:mpz_nthroot:mpz_rootrem:mpz_perfect_square_p:mpz_perfect_power_p', tier='thorough', timeout=900))
     ctx.validate(ctx.run_driver(b, 'corners_all', shards=8, extra='funs=mpz_sqrt:mpz_sqrtrem:mpz_root:mpz_nthroot:mpz_rootrem:mpz_perfect_square_p:mpz_perfect_power_p', timeout=900))      # the same functions on every corner-alphabet operand
-    trace_drivers(ctx, [('c09_mpz', 16, 1500), ('c09_mpn', 8, 900), ('k5_root', 8, 900), ('scalar_ext', 14, 600)], pure_drivers=['c09_mpn', 'k5_root'])      # k5_root: mpn_rootrem / mpn_rootrem_basecase called directly (roots B^k-1, powers of two, index above the bit length)
+    trace_drivers(ctx, [('c09_mpz', 16, 1500), ('c09_mpn', 8, 900), ('c09_sqcorn', 8, 900), ('m1_sqrt', 8, 600), ('k5_root', 8, 900), ('scalar_ext', 14, 600)], pure_drivers=['c09_mpn', 'k5_root'])      # k5_root: mpn_rootrem / mpn_rootrem_basecase called directly (roots B^k-1, powers of two, index above the bit length)
     return ctx.finish('model_checking',
         rule='R2: RootContract checks the root and perfect-power predicates of the specification against brute force for every |u|<=M. R3/R1: sqrt/sqrtrem/root/nthroot/rootrem/'
              'perfect_square_p/perfect_power_p on u = k^n, k^n-1, k^n+1 and random u of the same size, k of 0..130 limbs (all-ones, runs, random), n in 1..200 and around the bit length, '
@@ -384,6 +394,16 @@ def check_C13(ctx):
     q = ctx.tier == 'quick'
     r = assume_model(ctx, 'MpfContract', {'P': 6 if q else 8}, timeout=3000)
     ctx.model_must_hold(r, what='(float accuracy/exactness predicates of SemF vs brute force on small dyadics)')
+    mas = {'W': 2, 'PRECS': '{2}', 'LIMBS': '{0,1,3}', 'Funs': '{"add","sub"}', 'Aliases': '{"none","ru","rv","ruv"}', 'USigns': '{1}', 'XS': 2, 'Checker': '"int"', 'Variant': '"ok"'}
+    runs = [('MpfAddSub-w2p2', mas)] if q else [
+        ('MpfAddSub-w2p2all', dict(mas, LIMBS='{0,1,2,3}', Aliases='{"none"}')),                       # ALL limb contents, prec field 2
+        ('MpfAddSub-w2p2', dict(mas, USigns='{1,-1}')),                                               # all aliases, both signs
+        ('MpfAddSub-w3p2', dict(mas, W=3, LIMBS='{0,1,7}', Funs='{"sub"}', Aliases='{"none"}', XS=3)),  # operands up to prec+3 limbs
+        ('MpfAddSub-w2p3', dict(mas, PRECS='{3}', LIMBS='{0,3}', Aliases='{"none","ru","rv","ruv"}')),  # prec field 3
+        ('MpfAddSub-semf', dict(mas, PRECS='{3}', LIMBS='{0,3}', Aliases='{"none"}', Checker='"both"'))]  # SemF!AccurateDy itself, must agree with the integer form
+    for nm, c in runs:
+        r = ctx.tlc_model('MpfAddSub', cfg_text=cfg(consts=c), name=nm, workers=4, timeout=1500)
+        ctx.model_must_hold(r, what='(mpf_add/mpf_sub limb-level transcription: format, accuracy bound, exactness, stores)')
     ctx.validate(ctx.run_driver(ctx.build('default'), 'corners_qf', shards=8, extra='fam=f', timeout=900))      # EVERY mpf function of the table on corner-alphabet operands
     trace_drivers(ctx, [('c13', 16, 1500), ('c13s', 16, 1500), ('corners_f', 16, 1500), ('alias_qf', 4, 900), ('hist_qf', 8, 900), ('c13_inv', 8, 900)], pure_drivers=['c13', 'c13s', 'c13_inv'])      # corners_qf: EVERY mpq/mpf function of the table on corner-alphabet operands      # c13_inv: operands constructed from a result on a limb boundary (carry out of the discarded limbs, boundary quotients)
     return ctx.finish('model_checking',
